@@ -6,6 +6,7 @@ import (
 	"go/ast"
 	"go/token"
 	"go/types"
+	"strings"
 
 	"golang.org/x/tools/go/ssa"
 )
@@ -32,6 +33,9 @@ func init() {
 			{ID: "C19.R4", Doc: "parseVal returns Object/List operands unchanged", Run: c19R4},
 			{ID: "C19.R5", Doc: "no method hands its bare receiver to a callback, a typed slice, a result container or a comparison hand-out", Run: c19R5},
 			{ID: "C19.R6", Doc: "a stored element is never tested for the concrete container types (*list, *object): a derived value is neither, the container interfaces / TypeOf decide what is a container", Run: c19R6},
+			{ID: "C19.R7", Doc: "tree-form reads reach the stored value: GetTF splits every path into exactly the segments stepwise navigation uses and hands back what Get returns (= C10.R1 for GetTF)", Run: func(c *Ctx) {
+				c.R.Floor("C19.R7", runAs(c, "C19.R7", c10Run, func(o *Obligation) bool { return strings.Contains(o.Construct, "GetTF") }), 2)
+			}},
 		},
 	})
 }
